@@ -14,6 +14,10 @@ Open Scope N_scope.
 
 (* ---------------- format dispatch ---------------- *)
 
+(* NB: this one is model = model (it unfolds the model's dispatch; proof by computation).  It only documents
+   which parser the MODEL uses per source; that the CODE dispatches the same way is established by the
+   correspondence run (generic_line_parser vs the specific parse function on every generated line). *)
+
 Theorem C16_generic_dispatch : forall delim fw header line,
   generic_line_parser ObRawDump delim fw header line = Row (map Some (parse_tsv delim line)) /\
   generic_line_parser ObVw delim fw header line = Row (parse_vw fw header line) /\
@@ -60,15 +64,35 @@ Proof. exact tsv_old_refuted_blanks. Qed.
 
 (* ---------------- CSV ---------------- *)
 
-(* the reader inverts the QUOTE_MINIMAL writer for ARBITRARY cells: delimiters, quotes, even line
-   breaks inside (quoted) cells; no hypothesis on the contents at the level of the line parser *)
+(* flen_ok c : N.of_nat (length c) <= field_limit = 131072, the reader's csv.field_size_limit();
+   one character more and the reader raises Error (C16_csv_limit_exceeded), which the streaming loop
+   does not catch.  Within the limit the contents are arbitrary: delimiters, quotes, even line breaks
+   inside (quoted) cells; no further hypothesis at the level of the line parser. *)
 Theorem C16_csv : forall cells : list (list N),
-  cells <> [] -> Csv.parse (Csv.render cells ++ [LF]) = Some cells.
+  cells <> [] -> Forall flen_ok cells -> Csv.parse (Csv.render cells ++ [LF]) = Some cells.
 Proof. exact roundtrip. Qed.
 
 Theorem C16_csv_any_terminator : forall (cells : list (list N)) term,
-  cells <> [] -> forallb is_nl term = true -> Csv.parse (Csv.render cells ++ term) = Some cells.
+  cells <> [] -> Forall flen_ok cells -> forallb is_nl term = true -> Csv.parse (Csv.render cells ++ term) = Some cells.
 Proof. exact roundtrip_term. Qed.
+
+(* well-formed lines are not only the image of the QUOTE_MINIMAL writer: every field may be quoted although
+   it need not be (flag true), as QUOTE_ALL / QUOTE_NONNUMERIC / spreadsheet exports do; fields that must
+   be quoted are quoted whatever the flag says.  render_q row = the fields rendered with those choices. *)
+Theorem C16_csv_any_quoting : forall (row : list (bool * list N)) term,
+  row <> [] -> Forall flen_ok (map snd row) -> forallb is_nl term = true ->
+  Csv.parse (Csv.render_q row ++ term) = Some (map snd row).
+Proof. exact roundtrip_q_term. Qed.
+
+Theorem C16_csv_any_quoting_physical_lines : forall rows : list (list (bool * list N)),
+  Forall (fun row => Forall (none is_nl) (map snd row)) rows ->
+  phys_lines (concat (map (fun r => Csv.render_q r ++ [LF]) rows)) = map (fun r => Csv.render_q r ++ [LF]) rows.
+Proof. exact csv_physical_lines_q. Qed.
+
+(* the limit is tight *)
+Theorem C16_csv_limit_exceeded : forall c term, special c = false ->
+  Csv.parse (repeat c (N.to_nat field_limit + 1) ++ term) = None.
+Proof. exact limit_exceeded. Qed.
 
 (* what the real pipeline needs in addition, because it hands PHYSICAL lines to the parser: no cell
    contains CR or LF.  Then every record is one physical line. *)
@@ -112,6 +136,16 @@ Theorem C16_vw_absent : forall fw nss el,
   (forall ns, In ns nss -> dict_get (ns_id ns) fw <> Some el) -> vw_cell fw nss el = None.
 Proof. exact vw_cell_absent. Qed.
 
+(* INTERPRETATION of "without their two-character prefix": two characters are removed from the JOINED
+   string (x[2:] after '-'.join), i.e. only the first token loses a prefix; tokens c_x c_y give x-c_y *)
+Theorem C16_vw_prefix_is_of_joined_string :
+  (forall (t1 : list N) ts, (2 <= length t1)%nat -> ts <> [] ->
+     skipn 2 (join_with [DASH] (t1 :: ts)) = skipn 2 t1 ++ [DASH] ++ join_with [DASH] ts) /\
+  (exists fw header l, wf_vw l /\
+     map snd (flat_map ns_toks (vl_nss l)) = [[99; 95; 120]; [99; 95; 121]] /\
+     parse_vw fw header (render_vw l) = [Some [49]; Some [120; 45; 99; 95; 121]]).
+Proof. exact vw_prefix_is_of_joined_string. Qed.
+
 (* every VW row has as many cells as the header: the field-count test can never reject an ob-vw line *)
 Theorem C16_vw_never_rejected : forall fw header line,
   header <> [] -> length (parse_vw fw header line) = length header.
@@ -137,16 +171,29 @@ Theorem C16_accepted_rows_are_the_matching_rows : forall parser ncols bsize line
   crashed s' = false.
 Proof. exact loop_rows. Qed.
 
-(* end to end on a file: header line, then writer-rendered records whose cells have no line break *)
-Theorem C16_stream_csv : forall src delim fw hdr bsize hline (rows : list (list (list N))),
+(* end to end on a file: header line, then writer-style records (any quoting) whose cells have no line
+   break and respect the field size limit.
+   SCOPE of accepted_rows / run_loop: subsampling = 1 (every line is looked at; the subsampling stride is
+   C08's), and accepted_rows = rows that passed the validity test, INCLUDING the remainder left in the buffer
+   after the last line.  The code processes that remainder only when it has more than 2**10 rows (then its
+   first bsize rows) and drops it otherwise: C16_processed_rows states exactly which accepted rows reach
+   a processed mini-batch. *)
+Theorem C16_stream_csv : forall src delim fw hdr bsize hline (rows : list (list (bool * list N))),
   src = CsvRaw \/ src = ObCsv -> none is_nl hline ->
-  Forall (fun r => r <> [] /\ Forall (none is_nl) r) rows ->
-  let text := hline ++ LF :: concat (map (fun r => Csv.render r ++ [LF]) rows) in
+  Forall (fun r => r <> [] /\ Forall (none is_nl) (map snd r) /\ Forall flen_ok (map snd r)) rows ->
+  let text := hline ++ LF :: concat (map (fun r => Csv.render_q r ++ [LF]) rows) in
   let s := run_loop (generic_line_parser src delim fw hdr) (length hdr) bsize text in
-  accepted_rows s = map (map Some) (filter (fun r => Nat.eqb (length r) (length hdr)) rows) /\
+  accepted_rows s = map (fun r => map Some (map snd r)) (filter (fun r => Nat.eqb (length r) (length hdr)) rows) /\
   invalid s = N.of_nat (length (filter (fun r => negb (Nat.eqb (length r) (length hdr))) rows)) /\
   crashed s = false.
 Proof. exact stream_csv. Qed.
+
+(* rows that actually reach compute_batch_ranking (batches_seen) = the accepted rows minus the dropped tail
+   (the whole remainder when it has at most 2**10 rows, else what lies beyond its first bsize rows) *)
+Theorem C16_processed_rows : forall bsize s, crashed s = false ->
+  concat (batches_seen bsize s) ++
+    (if 1024 <? N.of_nat (length (buf s)) then skipn bsize (buf s) else buf s) = accepted_rows s.
+Proof. exact batches_seen_spec. Qed.
 
 Theorem C16_stream_tsv : forall delim fw hdr bsize hline (rows : list (list (list N))),
   is_nl delim = false -> none is_nl hline ->
@@ -195,7 +242,7 @@ Theorem C16_namespace_other_counts : forall st line,
 Proof. exact ns_step_other_counts. Qed.
 
 (* non-vacuity: concrete inputs satisfying the hypotheses (the Examples live next to the lemmas) *)
-Definition C16_examples := (tsv_nonvacuous, csv_nonvacuous, vw_nonvacuous, namespace_nonvacuous, stream_nonvacuous).
+Definition C16_examples := (tsv_nonvacuous, csv_nonvacuous, csv_quoted_nonvacuous, vw_nonvacuous, namespace_nonvacuous, stream_nonvacuous).
 
 Print Assumptions C16_generic_dispatch.
 Print Assumptions C16_tsv.
@@ -205,6 +252,11 @@ Print Assumptions C16_tsv_prefix_refuted.
 Print Assumptions C16_tsv_prefix_refuted_blanks.
 Print Assumptions C16_csv.
 Print Assumptions C16_csv_any_terminator.
+Print Assumptions C16_csv_any_quoting.
+Print Assumptions C16_csv_any_quoting_physical_lines.
+Print Assumptions C16_csv_limit_exceeded.
+Print Assumptions C16_vw_prefix_is_of_joined_string.
+Print Assumptions C16_processed_rows.
 Print Assumptions C16_csv_physical_lines.
 Print Assumptions C16_csv_linebreak_hypothesis_needed.
 Print Assumptions C16_csv_naive_refuted.
